@@ -26,8 +26,10 @@ EXPLANATION = (
     "override either tests the power state itself or is fed only by interface receive_frame functions that test "
     "`enabled` (the invariant R12.2 then makes a non-ON node deaf); R12.5 the ->OFF / ->ON stores are accompanied by "
     "_shut_down_actions / _start_up_actions, which stop/close resp. start/run every service and application, and "
-    "IOSoftware._can_perform_action refuses when the node is not ON. NOT decided: the number of ticks spent in "
-    "BOOTING / SHUTTING_DOWN (counter arithmetic)."
+    "IOSoftware._can_perform_action refuses when the node is not ON; the node-is-on / node-is-off guards are true exactly "
+    "in ON / exactly in OFF (R12.3); R12.6 a countdown armed inside Node.apply_timestep (the reset's automatic power_on) "
+    "is not decremented later in the same call, so BOOTING lasts as long after a reset as after a request. NOT decided: "
+    "the number of ticks spent in BOOTING / SHUTTING_DOWN as an arithmetic fact."
 )
 TECHNIQUE = "static: forward dataflow of the power-state enum over CFGs (transition extraction), must-pass on interface enabling, request-tree validator inventory"
 ASSUMPTIONS = ["no setattr/exec writes to operating_state (dynamic-feature census)",
@@ -227,6 +229,19 @@ def r12_3(ctx: Ctx) -> None:
             ctx.record("R12.3", f"{e.site.path}::{e.site.owner}::node request {e.key_text()}", e.where, ok,
                        f"validators {names or 'none'}; required {want}")
     ctx.floor("R12.3", "node-level request registrations", n, 14)
+    # the two guards compute the predicate their name promises: true exactly in ON / exactly in OFF
+    uni = set(ix.enum_members(ix.cls("NodeOperatingState")))
+    for cname, want in (("Node._NodeIsOnValidator", {"ON"}), ("Node._NodeIsOffValidator", {"OFF"})):
+        f = ix.method(cname + ".__call__")
+        rets = [x for x in ast.walk(f.node) if isinstance(x, ast.Return) and x.value is not None]
+        if len(rets) != 1:
+            raise AnalysisError(f"R12.3: {cname}.__call__ has {len(rets)} return statements; expected the single-expression form")
+        e = LocalDefs(f.node).expand(rets[0].value)
+        st = state_test(e, ["operating_state"], uni)
+        ok = st is not None and set(st[1]) == want
+        ctx.record("R12.3", ctx.key(f, f"guard true exactly in {sorted(want)}"), f.loc(), ok,
+                   f"returns {unparse(e)} -> true in {sorted(st[1]) if st else '?'}"
+                   + ("" if ok else "; a request is let through in a transitional state (e.g. start-up while SHUTTING_DOWN)"))
 
 
 def r12_4(ctx: Ctx, uni: Set[str]) -> None:
@@ -332,6 +347,50 @@ def r12_5(ctx: Ctx, uni: Set[str], flows) -> None:
                    path_text(p))
 
 
+def r12_6(ctx: Ctx) -> None:
+    """A request arms a countdown before apply_timestep of the same step runs (PrimaiteGame: actions, then time).  Inside
+    apply_timestep the only arming is the reset's automatic power_on; for the time spent BOOTING to be the same after a reset
+    as after a start-up request, a countdown armed during apply_timestep must not be decremented again in that call."""
+    ix = ctx.ix
+    ctx.rule("R12.6", "a countdown armed inside Node.apply_timestep (reset's automatic start) is not decremented in the same call")
+    at = ix.method("Node.apply_timestep")
+    node = ix.cls("Node")
+    g = CFG(at.node)
+    decs: Dict[str, List[CNode]] = {}
+    for n in g.nodes:
+        a = n.ast
+        if isinstance(a, ast.AugAssign) and isinstance(a.op, ast.Sub) and isinstance(a.target, ast.Attribute) and a.target.attr.endswith("_countdown"):
+            decs.setdefault(a.target.attr, []).append(n)
+    if "start_up_countdown" not in decs or "shut_down_countdown" not in decs:
+        raise AnalysisError(f"R12.6: power countdown decrements not found in Node.apply_timestep (found {sorted(decs)})")
+    n_arm = 0
+    for n in g.nodes:
+        for c in node_calls(n):
+            if not (isinstance(c.func, ast.Attribute) and unparse(c.func.value) == "self"):
+                continue
+            h = ix.find_method(node, c.func.attr)
+            if h is None or isinstance(h.node, ast.Lambda):
+                continue
+            armed = set()
+            for x in ast.walk(h.node):
+                if isinstance(x, ast.Assign):
+                    for t in x.targets:
+                        if isinstance(t, ast.Attribute) and t.attr.endswith("_countdown") and t.attr in decs:
+                            armed.add(t.attr)
+            for cd in sorted(armed):
+                n_arm += 1
+                p = g.path_avoiding(decs[cd], lambda e: False, start=n)
+                # the arming node itself being a decrement node is not a path
+                ctx.record("R12.6", ctx.key(at, f"{c.func.attr}() arms {cd}: no decrement of it later in the same call"), at.loc(n.ast),
+                           p is None,
+                           f"{cd} is decremented before {c.func.attr}() can arm it; the first decrement after arming happens in the next tick"
+                           if p is None else
+                           f"{c.func.attr}() arms {cd} and the same apply_timestep call then decrements it: the transitional state "
+                           f"lasts one tick less after a reset than after a request", path_text(p))
+    ctx.floor("R12.6", "arming calls inside apply_timestep", n_arm, 1)
+
+
+
 def check(ctx: Ctx) -> None:
     uni = set(ctx.ix.enum_members(ctx.ix.cls("NodeOperatingState")))
     if uni != {"ON", "OFF", "BOOTING", "SHUTTING_DOWN"}:
@@ -341,3 +400,4 @@ def check(ctx: Ctx) -> None:
     r12_3(ctx)
     r12_4(ctx, uni)
     r12_5(ctx, uni, flows)
+    r12_6(ctx)
